@@ -94,6 +94,7 @@ def run(ctx, rep):
     check_touch_account(fx, rep)
     check_order_extent(fx, rep)
     check_writers(ctx, rep)
+    check_recorded_values(fx, rep)
     rep.assume('`info.code` alone is a cache of `code_hash` (load_code fills it): it counts as journaled only together with code_hash')
     rep.assume('fatal Err exits (database errors) abort the transaction; Evm::clear resets the journal (C02/C31)')
     rep.assume('warm/cold status is decided under C34; logs are undone by truncation (R3), not by entries')
@@ -344,6 +345,49 @@ ALLOWED_WRITERS = {
     'revm::optimism::handler_register::end': 'optimism failed-deposit handling, tx level',
     'revm::optimism::handler_register::output': 'optimism failed-deposit handling, tx level',
 }
+
+
+def check_recorded_values(fx, rep):
+    """R5: an undo entry that carries a value carries the value the location held immediately before
+    this write (journal_revert writes it back): for sstore the present value just loaded for the same
+    (address, key), for tstore what the map's insert / remove returned for the same key."""
+    def deep(v):
+        import c15
+        return c15.render_deep(v)
+    specs = {
+        'sstore': ('StorageChanged', lambda t: t.startswith('sload(') and t.endswith('.data') and 'arg2, arg3' in t,
+                   'the slot\'s present value loaded by sload(address, key) for this write'),
+        'tstore': ('TransientStorageChange', lambda t: ('insert(&(\'arg\', 1).transient_storage' in t or 'remove(&(\'arg\', 1).transient_storage' in t) and 'arg2' in t and 'arg3' in t,
+                   'the value the transient map held for (address, key) before this write'),
+    }
+    for name, (variant, good, what) in specs.items():
+        f = fx.fns.get(JS + name)
+        if f is None:
+            rep.undecided('R5-recorded-value', name, 'not found')
+            continue
+        rep.fn(f)
+        try:
+            rs = Symx(fx, pure=PURE, max_paths=6000, snapshot_refs=True).run(f)
+        except Budget:
+            rep.undecided('R5-recorded-value', name, 'path budget', f.where())
+            continue
+        seen = 0
+        bad = None
+        for p in rs:
+            for e in p.events:
+                if e[0].endswith('Vec::push') and len(e[1]) > 1 and e[1][1][0] == 'agg' and e[1][1][2] == variant:
+                    ent = e[1][1]
+                    if 'had_value' not in ent[3]:
+                        bad = 'the entry has no had_value'
+                        continue
+                    hv = deep(ent[4][ent[3].index('had_value')])
+                    seen += 1
+                    if not good(hv):
+                        bad = 'the entry records had_value = %s; reverting must restore %s' % (hv[:90], what)
+        if bad or not seen:
+            rep.violation('R5-recorded-value', name, 'JournaledState::%s: %s' % (name, bad or 'no %s entry is pushed' % variant), f.where())
+        else:
+            rep.ok('R5-recorded-value', name, what)
 
 
 def check_writers(ctx, rep):
